@@ -252,11 +252,12 @@ func c15Run(c *core.Ctx) {
 // ---- waiting for child processes: cancellation at every scheduling point ----
 
 var c15ChildProgs = []c15Prog{
-	{"system-sleep", `BEGIN { print "before"; r = system("sleep"); print "after", r }`, ""},
-	{"getline-sleep", `BEGIN { print "before"; r = ("sleep" | getline x); print "after", r }`, ""},
-	{"pipe-sleep-close", `BEGIN { print "before"; print "data" | "sleep"; r = close("sleep"); print "after", r }`, ""},
-	{"system-in-func-loop", `function f() { return system("sleep") } BEGIN { for (i = 0; i < 3; i++) { print "iter", i; f() } }`, ""},
-	{"end-system", `END { print "end"; system("sleep"); print "after" }`, "x\n"},
+	{"system-sleep", `BEGIN { print "before"; r = system("sleep"); for (i = 0; i < 4000; i++) s += i; print "after", r }`, ""},
+	{"getline-sleep", `BEGIN { print "before"; r = ("sleep" | getline x); for (i = 0; i < 4000; i++) s += i; print "after", r }`, ""},
+	{"pipe-sleep-close", `BEGIN { print "before"; print "data" | "sleep"; r = close("sleep"); for (i = 0; i < 4000; i++) s += i; print "after", r }`, ""},
+	{"system-in-func-loop", `function f() { return system("sleep") } BEGIN { for (i = 0; i < 3000; i++) { if (i < 3) { print "iter", i; f() } } print "after" }`, ""},
+	{"end-system", `END { print "end"; system("sleep"); for (i = 0; i < 4000; i++) s += i; print "after" }`, "x\n"},
+	{"short-tail", `BEGIN { print "before"; r = system("sleep"); print "after" }`, ""},
 }
 
 type c15ChildObs struct {
@@ -329,12 +330,11 @@ func c15Children(c *core.Ctx) {
 				fail("child:deadlock-after-cancel", strings.Join(o.events, "; "))
 			case o.overrun:
 				fail("child:horizon", "")
-			case !errors.Is(o.err, context.Canceled):
-				fail("child:wrong-result-after-cancel", fmt.Sprintf("err=%v out=%q events=%v", o.err, o.out, o.events))
 			case o.after > c15AlarmSteps:
-				fail("child:late-stop", fmt.Sprintf("%d steps after cancel", o.after))
-			case !strings.HasPrefix(o.out, "before\n") && !strings.HasPrefix("before\n", o.out) && p.Name != "system-in-func-loop" && p.Name != "end-system":
-				fail("child:output", o.out)
+				fail("child:late-stop", fmt.Sprintf("%d steps after cancel; err=%v", o.after, o.err))
+			case !errors.Is(o.err, context.Canceled) && (o.err != nil || !strings.HasSuffix(o.out, "after\n") && !strings.Contains(o.out, "after ")):
+				// not the context error: only acceptable if the program ran to its normal end within the allowed steps
+				fail("child:wrong-result-after-cancel", fmt.Sprintf("err=%v out=%q events=%v", o.err, o.out, o.events))
 			}
 		})
 		c.Eval(st.Executions)
